@@ -333,4 +333,54 @@ theorem errLines_pos {L : Nat} {ts : List Tok} {f : Final} (hw : walk L ts f) {n
       · exact shift le hw.2.2 (by rw [countNl_tag_src]; exact hw.2.1) hn
 
 
+/-! ### which directive an error belongs to -/
+/-- the builder over a prefix of the token stream (the part of `build` before `finish`) -/
+def runToks (st : BState) : List Tok → Except PErr BState
+  | [] => .ok st
+  | t :: ts =>
+    match stepTok st t with
+    | .error e => .error e
+    | .ok st' => runToks st' ts
+
+/-- an error of `build` is raised by the first token `stepTok` rejects (everything before it was accepted), or by
+`finish` after all tokens were accepted -/
+theorem build_err_split {st : BState} {ts : List Tok} {f : Final} {e : PErr} (h : build st ts f = .error e) :
+    (∃ pre t post st', ts = pre ++ t :: post ∧ runToks st pre = .ok st' ∧ stepTok st' t = .error e) ∨
+    (∃ st', runToks st ts = .ok st' ∧ finish st' f = .error e) := by
+  induction ts generalizing st with
+  | nil => exact .inr ⟨st, rfl, by simpa [build] using h⟩
+  | cons t ts ih =>
+    simp only [build] at h
+    cases hs : stepTok st t with
+    | error e' => rw [hs] at h; cases h; exact .inl ⟨[], t, ts, st, rfl, rfl, hs⟩
+    | ok st' =>
+      rw [hs] at h
+      rcases ih h with ⟨pre, t', post, st'', rfl, hr, he⟩ | ⟨st'', hr, he⟩
+      · exact .inl ⟨t :: pre, t', post, st'', rfl, by simp [runToks, hs, hr], he⟩
+      · exact .inr ⟨st'', by simp [runToks, hs, hr], he⟩
+
+/-- the running line after a prefix of the tokens is the start line plus the newlines of the prefix's source -/
+theorem walk_split {L : Nat} {pre rest : List Tok} {f : Final} (h : walk L (pre ++ rest) f) :
+    walk (L + countNl (pre.flatMap Tok.src)) rest f := by
+  induction pre generalizing L with
+  | nil => simpa [countNl] using h
+  | cons t pre ih =>
+    cases t with
+    | text v l =>
+      simp only [List.cons_append, walk] at h
+      have := ih h.2
+      rw [h.1] at this
+      simpa [Tok.src, countNl_append, Nat.add_assoc] using this
+    | esc c2 l =>
+      simp only [List.cons_append, walk] at h
+      have := ih h.2.2
+      have e0 : countNl (Tok.esc c2 l).src = 0 := by
+        simp [Tok.src, countNl, List.count_cons, h.2.1]
+      simpa [List.flatMap_cons, countNl_append, e0] using this
+    | tag k c l le =>
+      simp only [List.cons_append, walk] at h
+      have := ih h.2.2
+      rw [h.2.1] at this
+      simpa [List.flatMap_cons, countNl_append, countNl_tag_src, Nat.add_assoc] using this
+
 end TornadoModel.C19
